@@ -18,6 +18,7 @@ import (
 	"fmt"
 	"os"
 	"sort"
+	"strconv"
 	"strings"
 	"sync/atomic"
 	"time"
@@ -224,12 +225,6 @@ func relaxed(q *joinref.Query, mode string, out joinref.Output, exp [][]joinref.
 	return "", false
 }
 
-type tcase struct {
-	idx  int
-	c    *joinref.Case
-	runs []runCfg
-}
-
 func classFor(i int) string {
 	switch i % 10 {
 	case 0, 1, 2, 3, 4:
@@ -247,7 +242,12 @@ func classFor(i int) string {
 
 func Run(c *core.Ctx) core.FinishOpts {
 	applyReplay(c)
-	nCases := c.Pick(300, 6500)
+	nCases := c.Pick(300, 6000)
+	if v, err := strconv.Atoi(os.Getenv("VERIF_MAXCASES")); err == nil && v > 0 && v < nCases {
+		// development aid on an overloaded machine: run only a prefix of the tier's case list
+		nCases = v
+		c.Note("case_list_truncated_to", v)
+	}
 	big := c.Pick(1500, 3000)
 	selftest := os.Getenv("VERIF_SELFTEST") == "1"
 	runner := cli.NewRunner(c.BinDir, c.Scratch)
